@@ -66,6 +66,7 @@ func hC15(n, prefix, L, vlen int) {
 		switch {
 		case code == nops: // clean restart: writes the .psg.pmt side files
 			vAssert(db.Close() == nil, "C15.close")
+			vAssert(fs.VerifOpenHandles() == 0, "C15.no-open-handles-after-close")
 			db, err = Open(dir, opts)
 			vAssert(err == nil, "C15.reopen")
 			if err != nil {
@@ -120,6 +121,7 @@ func hC15(n, prefix, L, vlen int) {
 	applyOp(db, r, 1, 1%n, vlen, "C15.final")
 	checkReads(db, r, "C15.final")
 	vAssert(db.Close() == nil, "C15.final.close")
+	vAssert(fs.VerifOpenHandles() == 0, "C15.final.no-open-handles-after-close")
 	db, err = Open(dir, opts)
 	vAssert(err == nil, "C15.final.reopen")
 	if err != nil {
